@@ -17,7 +17,8 @@ FUNCTIONS = ['uxarray.io._mpas._replace_padding',
     'uxarray.io._mpas._parse_edge_faces@dual',
     'uxarray.grid.coordinates._set_desired_longitude_range',
     'uxarray.io._mpas._parse_edge_nodes@primal',
-    'uxarray.io._mpas._parse_edge_nodes@dual']
+    'uxarray.io._mpas._parse_edge_nodes@dual',
+    'uxarray.io._esmf._read_esmf']
 STANDINS = ["readers"]
 ASSUMPTIONS = []
 EXPLANATION = ""
